@@ -67,7 +67,7 @@
 #define SERIAL 0
 #endif
 
-enum { OP_UPDATE = 1, OP_REACT = 2, OP_QUERY = 4, OP_CHANGE = 8, OP_IMMEDIATE = 16, OP_REPLAY = 32, OP_SAVELOAD = 64, OP_EXIT = 128 };
+enum { OP_UPDATE = 1, OP_REACT = 2, OP_QUERY = 4, OP_CHANGE = 8, OP_IMMEDIATE = 16, OP_REPLAY = 32, OP_SAVELOAD = 64, OP_EXIT = 128, OP_RELOCATE = 256 };
 
 // ---- payload family (C07/C18): size x alignment; field bytes are symbolic, padding is never compared
 template <typename T> static bool feq(const T& a, const T& b) { return a == b; }
@@ -266,7 +266,10 @@ static void act(TControl& c, int I) {
   if ((k & 3) == 1) { int d = nondet_below(NSTATES); c.changeTo(d); note_request(I < 0 ? INV : I, d);
     VA(c.request().destination == d && c.request().origin == (I < 0 ? INV : I), 607); }
 #if PAYLOAD
-  else if ((k & 3) == 2) { int d = nondet_below(NSTATES); Pay p = anypay(); c.changeWith(d, p); note_request(I < 0 ? INV : I, d); led_haspay = true; led_pay = p;
+  else if ((k & 3) == 2) { int d = nondet_below(NSTATES); Pay p = anypay();
+    if ((k & 8) && c.request() && c.request().payload()) { p = *c.request().payload(); c.changeWith(d, *c.request().payload()); }   // re-targeting the waiting request and keeping its payload: the argument aliases the request itself
+    else c.changeWith(d, p);
+    note_request(I < 0 ? INV : I, d); led_haspay = true; led_pay = p;
     VA(c.request().destination == d && c.request().origin == (I < 0 ? INV : I), 607);
     VA(c.request().payload() && payeq(*c.request().payload(), p), 706); }
 #endif
@@ -636,9 +639,11 @@ static void do_activate(Inst* m) { begin_call(CALL_ACTIVATE); m->enter(); end_ac
 extern "C" int harness(void) {
   // storage: a union keeps the object typed for the solver while its bytes can be pre-filled arbitrarily
   union Slot { Inst obj; unsigned char bytes[sizeof(Inst)]; Slot() {} ~Slot() {} };
-  Slot slot;
-  unsigned char* const buf = slot.bytes;
+  Slot slot, slot2;
+  unsigned char* buf = slot.bytes;
   nondet_fill(buf, sizeof(Inst));                                // every byte pattern pre-filling the storage
+  if (OPS & OP_RELOCATE) nondet_fill(slot2.bytes, sizeof(Inst));
+  bool relocated = false;
   g = &slot.obj;
   ctx_addr = &the_ctx;
 #if MANUAL
@@ -748,6 +753,14 @@ extern "C" int harness(void) {
     else if (op == 8 && (OPS & OP_EXIT)) {
       begin_call(CALL_DEACTIVATE); m->exit(); end_deactivate(true); }
 #endif
+    else if ((op == 9 || op == 10) && (OPS & OP_RELOCATE) && !relocated) {
+      // the machine is copy- (9) or move-constructed (10) into other storage and the program carries on with the new
+      // object (factory return, container growth); no callback runs, and every monitor simply continues
+      relocated = true; guards_allowed = false; const int ne = n_enter + n_exit + n_reenter;
+      Inst* m2 = (op == 9) ? new (&slot2.obj) Inst(*m) : new (&slot2.obj) Inst(static_cast<Inst&&>(*m));
+      guards_allowed = true; m = m2; g = m2; buf = slot2.bytes;
+      VA(n_enter + n_exit + n_reenter == ne, 136);
+      check_quiescent(); }
   }
   vwitness(9001);
 #if MANUAL
